@@ -23,6 +23,121 @@ import sys
 import threading
 
 # ---------------------------------------------------------------------------
+# dev-only: line coverage of the anchored code  (VERIF_COVERAGE=1 ./check C08|C10 --no-coq)
+# ---------------------------------------------------------------------------
+# Lines are collected in this process (threads of OpRunner, set-up code) and in every forked child that serves an
+# arrangement or a baseline (they hand their lines back with their answer).  The report is written to
+# evidence/<ID>.coverage.json when the checking process exits.
+
+COV = os.environ.get('VERIF_COVERAGE') == '1'
+COV_LINES = set()          # (file relative to the ombott package, line)
+_COV_DIR = [None]
+
+# anchored code of C08 / C10: file -> qualified-name prefixes
+ANCHORS = {
+    'common_helpers.py': ['ts_props', 'proxy', 'cached_property', 'HeaderDict'],
+    'response.py': ['BaseResponse.__new__', 'BaseResponse.__init__', 'BaseResponse.copy', 'BaseResponse.status',
+                    'BaseResponse.status_line', 'BaseResponse.status_code', 'Response', 'HTTPResponse.apply',
+                    'HTTPResponse.__init__', 'HTTPError.__init__'],
+    'request_pkg/request.py': ['BaseRequest', 'Request'],
+    'ombott.py': ['Ombott.__init__', 'Ombott.setup', 'Ombott._hooks', 'Ombott.add_hook', 'Ombott.on',
+                  'Ombott.remove_hook', 'Ombott.emit', 'Ombott.on_route', 'Ombott.remove_route_hook', 'Ombott.error',
+                  'Ombott.default_error_handler', 'Ombott.handler', 'Ombott._handle', 'Ombott._cast', 'Ombott.wsgi',
+                  'Ombott.__call__', 'Globals', 'default_app', 'redirect', 'abort'],
+}
+
+
+def _cov_local(frame, event, arg):
+    if event == 'line':
+        COV_LINES.add((frame.f_code.co_filename, frame.f_lineno))
+    return _cov_local
+
+
+def _cov_global(frame, event, arg):
+    if event == 'call' and _COV_DIR[0] and frame.f_code.co_filename.startswith(_COV_DIR[0]):
+        return _cov_local
+    return None
+
+
+def cov_begin():
+    """start collecting (idempotent); the package directory is found without importing ombott"""
+    if not COV or _COV_DIR[0]:
+        return
+    import importlib.util
+    spec = importlib.util.find_spec('ombott')
+    _COV_DIR[0] = os.path.dirname(os.path.abspath(spec.origin)) + os.sep
+    sys.settrace(_cov_global)
+    threading.settrace(_cov_global)
+
+
+def cov_take():
+    """lines collected so far in this process, as [[relative file, line], ...]"""
+    d = _COV_DIR[0] or ''
+    return sorted([f[len(d):], ln] for f, ln in COV_LINES if f.startswith(d))
+
+
+def cov_merge(lines):
+    d = _COV_DIR[0] or ''
+    for f, ln in lines or []:
+        COV_LINES.add((d + f, ln))
+
+
+def cov_anchor_lines():
+    """{file: {line: qualified name}} — the executable lines of the anchored functions (without their def lines)"""
+    out = {}
+    for rel, prefixes in ANCHORS.items():
+        path = os.path.join(_COV_DIR[0], rel)
+        with open(path) as f:
+            top = compile(f.read(), path, 'exec')
+        lines = {}
+
+        def walk(code):
+            for c in code.co_consts:
+                if hasattr(c, 'co_code'):
+                    q = c.co_qualname
+                    if any(q == p or q.startswith(p + '.') for p in prefixes):
+                        for _, _, ln in c.co_lines():
+                            if ln is not None and ln != c.co_firstlineno:
+                                lines.setdefault(ln, q)
+                    walk(c)
+        walk(top)
+        out[rel] = lines
+    return out
+
+
+def cov_report(pid):
+    if not COV or not _COV_DIR[0]:
+        return
+    anchors = cov_anchor_lines()
+    hit = {}
+    for f, ln in cov_take():
+        hit.setdefault(f, set()).add(ln)
+    total = reached = 0
+    missing = {}
+    for rel, lines in anchors.items():
+        src = open(os.path.join(_COV_DIR[0], rel)).read().split('\n')
+        for ln, q in sorted(lines.items()):
+            total += 1
+            if ln in hit.get(rel, ()):
+                reached += 1
+            else:
+                missing.setdefault(rel, []).append([ln, q, src[ln - 1].strip()[:100]])
+    root = os.path.dirname(os.path.dirname(os.path.dirname(os.path.abspath(__file__))))
+    path = os.path.join(root, 'evidence', '%s.coverage.json' % pid)
+    with open(path, 'w') as f:
+        json.dump(dict(property=pid, anchored_lines=total, reached=reached, missing=missing), f, indent=1)
+    sys.stderr.write('coverage %s: %d of %d executable lines of the anchored functions reached -> %s\n'
+                     % (pid, reached, total, path))
+
+
+def cov_register(pid):
+    if COV:
+        import atexit
+        cov_begin()
+        atexit.register(cov_report, pid)
+
+
+# ---------------------------------------------------------------------------
 # command language shared with coq/model/TsProps.v
 # ---------------------------------------------------------------------------
 
@@ -403,6 +518,8 @@ class Scheduler:
         def local(frame, event, arg):
             if event == 'line':
                 self.steps[me] += 1
+                if COV:
+                    COV_LINES.add((frame.f_code.co_filename, frame.f_lineno))
                 if self.record is not None:
                     self.record.append((me, os.path.basename(frame.f_code.co_filename), frame.f_lineno))
                 if self.left is not None:
@@ -526,9 +643,11 @@ def _error_handler_for(app):
         # a custom @app.error handler: looks at app.response (HTTPError.apply has just replaced status and headers)
         # and renders the default page
         fr = _tl.stack[-1]
-        fr['w_hdrs'] = {}
-        fr['w_line'] = None
-        _see(fr, 'error_handler')
+        if fr.get('handler_runs'):
+            fr['w_hdrs'] = {}
+            fr['w_line'] = None
+            fr['w_status'] = fr.get('w_end', fr['w_status'])
+            _see(fr, 'error_handler')
         return app.default_error_handler(err)
     return on_error
 
@@ -545,8 +664,17 @@ def _make_handler():
 _handler = _make_handler()      # every application gets its own function object (same code object)
 
 
-def _view(fr):
-    """what the application's request/response objects show right now"""
+def _flat(hd):
+    """header mapping name -> value | [values]  ->  sorted [name, value] pairs"""
+    out = []
+    for k, v in hd.items():
+        for x in (v if isinstance(v, list) else [v]):
+            out.append([k, str(x)])
+    return sorted(out)
+
+
+def _view(fr, light=False):
+    """what the application's request/response objects show right now (light: before routing has happened)"""
     apps = fr['apps']
     app = apps[fr['app']]
     out = {}
@@ -557,14 +685,29 @@ def _view(fr):
         out['query'] = sorted([k, v] for k, v in rq.query.items())
         out['method'] = rq.method
         out['cookie_hdr'] = rq.environ.get('HTTP_COOKIE')
+        out['req_cookies'] = sorted([k, v] for k, v in rq.cookies.items())
         out['app'] = next((i for i, a in enumerate(apps) if a is rq.app), -1)
-        out['route_own'] = getattr(rq.route, 'handler', rq.route) is getattr(app, '_verif_handler', None)
-        out['url_args'] = sorted([k, v] for k, v in rq.url_args.items())
+        if not light:
+            out['route_own'] = getattr(rq.route, 'handler', rq.route) is getattr(app, '_verif_handler', None)
+            out['url_args'] = sorted([k, v] for k, v in rq.url_args.items())
+        # the mapping interface of the request: keys / iter / len / item access / repr
+        out['req_map_ok'] = (len(rq) == len(rq.environ) and list(rq) == list(rq.environ)
+                             and list(rq.keys()) == list(rq.environ.keys()) and rq['PATH_INFO'] == rq.environ['PATH_INFO'])
+        out['repr_has_path'] = fr['path'] in repr(rq)
+        try:
+            out['ext'] = rq.verif_note             # an ext attribute lives in this request's environ
+        except AttributeError:
+            out['ext'] = None
     except Exception as e:  # noqa
         out['request_error'] = type(e).__name__
     try:
         rs = app.response
-        out['hdrs'] = sorted([k, str(v)] for k, v in rs.headers.items())
+        hd = rs.headers
+        out['hdrs'] = _flat(dict(hd.items()))
+        # the mapping interface of HeaderDict: len / iter / in / item access / get / keys / values
+        out['hdr_map'] = [len(hd), sorted(iter(hd)), sorted(hd.keys()), all(k in hd for k in list(hd)),
+                          _flat({k: hd[k] for k in list(hd)}), _flat({k: hd.get(k) for k in list(hd)}),
+                          'X-Never' in hd, hd.get('X-Never', 'dflt'), len(list(hd.values()))]
         out['status'] = rs.status_code
         out['status_line'] = rs.status_line if fr.get('w_line') is not None else None
         ck = rs._cookies
@@ -576,9 +719,14 @@ def _view(fr):
 
 def _want(fr):
     q = [p.split('=', 1) for p in fr['qs'].split('&')] if fr['qs'] else []
+    cq = [p.strip().split('=', 1) for p in fr['cookie'].split(';')] if fr['cookie'] else []
+    wh = fr['w_hdrs']
+    flat = _flat(wh)
     return dict(path=fr['path'], qs=fr['qs'], query=sorted(q), method=fr['method'], cookie_hdr=fr['cookie'],
+                req_cookies=sorted(cq), req_map_ok=True, repr_has_path=True, ext=fr.get('w_ext'),
                 app=fr['app'], route_own=True, url_args=[['x%d' % fr['app'], fr['path'][3:]]],
-                hdrs=sorted([k, v] for k, v in fr['w_hdrs'].items()), status=fr['w_status'], status_line=fr.get('w_line'),
+                hdrs=flat, hdr_map=[len(wh), sorted(wh), sorted(wh), True, flat, flat, False, 'dflt', len(wh)],
+                status=fr['w_status'], status_line=fr.get('w_line'),
                 cookies=sorted([k, v] for k, v in fr['w_cookies'].items()))
 
 
@@ -588,13 +736,98 @@ def _listed_codes():
 
 
 def _see(fr, where):
-    fr['log'].append(dict(kind='see', tok=fr['tok'], where=where, got=_view(fr), want=_want(fr)))
+    light = where == 'before_request'
+    want = _want(fr)
+    if light:
+        del want['route_own'], want['url_args']
+    fr['log'].append(dict(kind='see', tok=fr['tok'], where=where, got=_view(fr, light), want=want))
 
 
 def _gen_body(fr, n):
     for i in range(n):
         yield '%s.piece%d;' % (fr['tok'], i)
         _see(fr, 'gen%d' % i)
+
+
+def _ret(fr, app, kind):
+    """what a handler may return besides text (ends the script); sets what the response must be"""
+    import io
+    import ombott
+    tok = fr['tok']
+    if kind == 'file':
+        fr['w_body'] = ('wrapped:' if fr.get('file_wrapper') else '') + 'file:' + tok
+        return io.BytesIO(('file:' + tok).encode())
+    if kind == 'gen_empty':
+        fr['w_body'] = ''
+        return iter(())
+    if kind == 'none':
+        fr['w_body'] = ''
+        return None
+    if kind == 'gen_blank_first':
+        fr['w_body'] = 'late:' + tok
+        return iter(['', '', 'late:' + tok])
+    if kind == 'gen_bytes':
+        fr['w_body'] = 'b1:%s;b2;' % tok
+        return iter([('b1:%s;' % tok).encode(), b'b2;'])
+    if kind == 'gen_int':
+        fr['w_final'], fr['w_end'] = 'error', 500
+        return iter([5])
+    if kind in ('gen_raises_resp', 'resp_obj', 'resp_raise'):
+        # an HTTPResponse (returned, raised, or raised by the first next() of the body): apply() replaces status,
+        # headers (not cookies) and body of app.response
+        fr['w_body'] = 'resp:' + tok
+        fr['w_end'] = 203
+        fr['w_hdrs'] = {'X-Obj': tok + 'obj'}
+        resp = ombott.HTTPResponse('resp:' + tok, 203, {'X-Obj': tok + 'obj'}, X_More=tok)
+        if kind == 'resp_obj':
+            return resp
+        if kind == 'resp_raise':
+            raise resp
+
+        def g():
+            raise resp
+            yield ''
+        return g()
+    if kind == 'gen_raises_exc':
+        fr['w_final'], fr['w_end'] = 'error', 500
+
+        def g2():
+            raise RuntimeError(tok + '.genboom')
+            yield ''
+        return g2()
+    if kind == 'bad_charset':
+        # the text cannot be encoded: the exception leaves _cast and reaches the last-resort page of wsgi()
+        app.response.headers['Content-Type'] = 'text/html; charset=no-such-charset'
+        fr['w_final'], fr['w_end'] = ('critical' if app.config.catchall else 'escaped'), 500
+        return 'text:' + tok
+    if kind == 'loop418':
+        # the 418 handler answers with a 418 error again and again: _cast gives up after 1000 rounds
+        fr['w_final'], fr['w_end'] = 'error', 500
+        ombott.abort(418, tok + '.teapot')
+    raise ValueError(kind)
+
+
+def _before_after(app, which):
+    def hook():
+        fr = _tl.stack[-1]
+        if fr.get('handler_runs') and fr.get('w_final') != 'redirect':
+            _see(fr, which)
+    return hook
+
+
+def _route_hook(prefix_seen):
+    fr = _tl.stack[-1]
+    fr['log'].append(dict(kind='form', tok=fr['tok'], where='route_hook', got=dict(prefix=prefix_seen), want=dict(prefix='/r')))
+
+
+def _partial_404(route, params):
+    fr = _tl.stack[-1]
+    return 'partial:%s:%s' % (route, fr['tok'])
+
+
+def _teapot_loop(err):
+    import ombott
+    return ombott.HTTPError(418, 'again')
 
 
 def _interp(fr):
@@ -619,6 +852,92 @@ def _interp(fr):
         elif kind == 'cookie':
             app.response.set_cookie(act[1], act[2])
             fr['w_cookies'][act[1]] = act[2]
+        elif kind == 'hdr_append':
+            app.response.headers.append(act[1], act[2])
+            old = fr['w_hdrs'].get(act[1])
+            fr['w_hdrs'][act[1]] = act[2] if old is None else (old + [act[2]] if isinstance(old, list) else [old, act[2]])
+        elif kind == 'hdr_del':
+            if act[1] in fr['w_hdrs']:
+                del app.response.headers[act[1]]
+                del fr['w_hdrs'][act[1]]
+        elif kind == 'hdr_clear':
+            # ['hdr_clear'] everything, ['hdr_clear', [names]] those that are there
+            if len(act) > 1:
+                app.response.headers.clear(*act[1])
+                for n in act[1]:
+                    fr['w_hdrs'].pop(n, None)
+            else:
+                app.response.headers.clear()
+                fr['w_hdrs'].clear()
+        elif kind == 'hdr_update':
+            app.response.headers.update(dict(act[1]))
+            fr['w_hdrs'].update(dict(act[1]))
+        elif kind == 'hdr_setdefault':
+            got = app.response.headers.setdefault(act[1], act[2])
+            fr['w_hdrs'].setdefault(act[1], act[2])
+            fr['log'].append(dict(kind='form', tok=fr['tok'], where='setdefault', got=dict(v=got),
+                                  want=dict(v=fr['w_hdrs'][act[1]])))
+        elif kind == 'hdr_copy':
+            # a copy of the header dict is a different dict (list values included)
+            cp = app.response.headers.copy()
+            cp['X-Copy'] = fr['tok']
+            for k, v in list(cp.items()):
+                if isinstance(v, list):
+                    v.append('copy-' + fr['tok'])
+            cp.clear('X-A')
+        elif kind == 'req_set':
+            # app.request[key] = value: the caches derived from that key follow (query, cookies, ...)
+            key, value = act[1], act[2]
+            try:
+                app.request[key] = value
+                refused = False
+            except KeyError:
+                refused = True
+            fr['log'].append(dict(kind='form', tok=fr['tok'], where='req_set', got=dict(refused=refused),
+                                  want=dict(refused=bool(fr.get('readonly')))))
+            if not refused:
+                if key == 'QUERY_STRING':
+                    fr['qs'] = value
+                elif key == 'HTTP_COOKIE':
+                    fr['cookie'] = value
+        elif kind == 'req_del':
+            if not fr.get('readonly'):
+                app.request['x.tmp'] = fr['tok']
+                del app.request['x.tmp']
+                fr['log'].append(dict(kind='form', tok=fr['tok'], where='req_del',
+                                      got=dict(there='x.tmp' in app.request.environ), want=dict(there=False)))
+        elif kind == 'ext':
+            # request.<name> = v keeps v in THIS request's environ
+            app.request.verif_note = fr['tok'] + '.note'
+            fr['w_ext'] = fr['tok'] + '.note'
+            try:
+                app.request.verif_never
+                missing = False
+            except AttributeError:
+                missing = True
+            fr['log'].append(dict(kind='form', tok=fr['tok'], where='ext', got=dict(missing=missing), want=dict(missing=True)))
+        elif kind == 'listen':
+            # request.on / off / emit used inside one handler (registered and removed again)
+            heard = []
+
+            def cb(rq, key, v, _heard=heard):
+                _heard.append([key, v])
+            un = app.request.on('env_changed', cb)
+            app.request.emit('verif.nobody.listens')
+            if not fr.get('readonly'):
+                app.request['x.note'] = fr['tok']
+            if act[1:] == ['off']:
+                app.request.off('env_changed', cb)
+            else:
+                un()
+            fr['log'].append(dict(kind='form', tok=fr['tok'], where='listen', got=dict(heard=heard),
+                                  want=dict(heard=[] if fr.get('readonly') else [['x.note', fr['tok']]])))
+        elif kind == 'bad_status':
+            # a status the setter refuses (ends the script: 500 page)
+            fr['w_final'], fr['w_end'] = 'error', 500
+            app.response.status = act[1]
+        elif kind == 'ret':
+            return _ret(fr, app, act[1])
         elif kind == 'call':
             do_call(fr['apps'], act[1], fr['log'])
         elif kind == 'copy':
@@ -639,9 +958,9 @@ def _interp(fr):
         elif kind == 'body_read':
             # reading the body of a malformed / oversize request raises the framework's pre-built 400 / 413
             if fr.get('chunked_bad') or fr.get('json_bad') or fr.get('json_nonobj'):
-                fr['w_final'], fr['w_status'] = 'error', 400
+                fr['w_final'], fr['w_end'] = 'error', 400
             elif fr.get('too_big'):
-                fr['w_final'], fr['w_status'] = 'error', 413
+                fr['w_final'], fr['w_end'] = 'error', 413
             if fr.get('json_bad'):
                 app.request.json                  # BodyParsingError('Invalid JSON')
             if fr.get('json_nonobj'):
@@ -651,7 +970,12 @@ def _interp(fr):
                                   want=dict(body=fr['form'] or '')))
         elif kind == 'new_app':
             # ['new_app'] or ['new_app', cfg-kind]: an application (with its own configuration) built while serving
-            fr['apps'].append(ombott.Ombott(app_config(act[1])) if len(act) > 1 else ombott.Ombott())
+            if len(act) > 2:                      # ['new_app', cfg, 'setup']: configured after construction
+                na = ombott.Ombott()
+                na.setup(app_config(act[1]))
+                fr['apps'].append(na)
+            else:
+                fr['apps'].append(ombott.Ombott(app_config(act[1])) if len(act) > 1 else ombott.Ombott())
         elif kind == 'form_see':
             got = {}
             try:
@@ -667,16 +991,16 @@ def _interp(fr):
         elif kind == 'redirect':
             # ombott.redirect(target) (ends the script): 303 to the target resolved against THIS request's URL
             fr['w_final'] = 'redirect'
-            fr['w_status'] = 303
+            fr['w_end'] = 303
             fr['w_location'] = 'http://localhost' + fr['path'] + act[1]
             ombott.redirect(act[1])
         elif kind == 'abort':
             fr['w_final'] = 'error'
-            fr['w_status'] = act[1]
+            fr['w_end'] = act[1]
             ombott.abort(act[1], fr['tok'] + '.aborted')
         elif kind == 'boom':
             fr['w_final'] = 'error'
-            fr['w_status'] = 500
+            fr['w_end'] = 500
             raise RuntimeError(fr['tok'] + '.boom')
         elif kind == 'gen':
             fr['w_final'] = 'gen'
@@ -742,7 +1066,10 @@ def do_call(apps, call, log, environ=None, path=None):
     if environ is not None:
         env = environ
     else:
-        path = '/r/' + tok + call.get('pad', '')
+        route = call.get('route', 'r')
+        seg = tok + call.get('pad', '')
+        path = {'r': '/r/' + seg, 'g405': '/g/' + seg, 'nope404': '/nope/' + seg, 'h404hook': '/h/zz/' + seg,
+                'badpath': '/r/' + seg + '\xff'}[route]
         body = form.encode('latin1') if form else b''
         env = {
             'REQUEST_METHOD': call.get('method', 'GET'), 'PATH_INFO': path, 'QUERY_STRING': call.get('qs', ''),
@@ -766,11 +1093,30 @@ def do_call(apps, call, log, environ=None, path=None):
             env['HTTP_ACCEPT'] = call['accept']
         if call.get('readonly'):
             env['ombott.request.readonly'] = True
+        if call.get('file_wrapper'):
+            env['wsgi.file_wrapper'] = lambda f: [b'wrapped:' + f.read()]
+        if call.get('domain'):
+            # the application's domain_map turns this host into the '/r' prefix
+            env['HTTP_HOST'] = 'r.example'
+            env['PATH_INFO'] = path[2:]
     fr = dict(apps=apps, app=call['app'], tok=tok, path=path, qs=call.get('qs', ''),
               method=call.get('method', 'GET'), form=form, cookie=call.get('cookie'), script=call['script'],
               readonly=call.get('readonly'), chunked_bad=call.get('chunked_bad'), too_big=call.get('too_big'),
               json_bad=call.get('json_bad'), json_nonobj=call.get('json_nonobj'), hook_input=call.get('hook_input'),
-              log=log, w_hdrs={}, w_status=200, w_cookies={}, w_final='text', w_body='done:' + tok)
+              log=log, w_hdrs={}, w_status=200, w_cookies={}, w_final='text', w_body='done:' + tok,
+              handler_runs=True, file_wrapper=call.get('file_wrapper'))
+    if environ is None and call.get('route', 'r') != 'r':
+        # the scripted handler is not reached: the framework answers by itself
+        fr['handler_runs'] = False
+        fr['script'] = []
+        r = call['route']
+        if r == 'h404hook':
+            fr['w_body'] = 'partial:/h:' + tok
+        else:
+            fr['w_final'] = 'error'
+            fr['w_end'] = {'g405': 405, 'nope404': 404, 'badpath': 400}[r]
+            if r == 'g405':
+                fr['w_allow'] = 'GET'
     if not hasattr(_tl, 'stack'):
         _tl.stack = []
     _tl.stack.append(fr)
@@ -790,45 +1136,84 @@ def do_call(apps, call, log, environ=None, path=None):
     finally:
         _tl.stack.pop()
     hdrs = sorted([k, v] for k, v in st.get('h', []))
+    w_status = fr.get('w_end', fr['w_status'])
+    nobody = fr['method'] == 'HEAD' or w_status in (204, 304) or 100 <= w_status < 200
     rec = dict(kind='response', tok=tok, status=st.get('s'), hdrs=hdrs, body=body_out.decode('latin1'),
                accept_json=(env.get('HTTP_ACCEPT') or '').startswith('application/json'),
-               w_final=fr['w_final'], w_status=fr['w_status'], w_body=fr['w_body'], w_location=fr.get('w_location'),
-               w_line=fr.get('w_line') if fr['w_final'] in ('text', 'gen') else None,
-               w_hdrs=sorted([k, v] for k, v in fr['w_hdrs'].items()),
+               w_final=fr['w_final'], w_status=w_status, w_body='' if nobody else fr['w_body'], nobody=nobody,
+               w_location=fr.get('w_location'), w_allow=fr.get('w_allow'),
+               w_line=fr.get('w_line') if fr['w_final'] in ('text', 'gen') and 'w_end' not in fr else None,
+               w_hdrs=_flat(fr['w_hdrs']),
                w_cookies=sorted([k, v] for k, v in fr['w_cookies'].items()))
     log.append(rec)
     return rec
 
 
-def make_apps(napps, use_default, max_body=None):
+def build_config(names):
+    """configuration dict for the applications of a case, from names (JSON-able)"""
+    cfg = {}
+    for n in names or ():
+        if n == 'max30':
+            cfg['max_body_size'] = 30
+        elif n == 'debug':
+            cfg['debug'] = True
+        elif n == 'nocatch':
+            cfg['catchall'] = False
+        elif n == 'domain':
+            cfg['domain_map'] = lambda host: 'r' if (host or '').startswith('r.') else None
+            cfg['app_name_header'] = 'HTTP_X_APP_NAME'
+        else:
+            raise ValueError(n)
+    return cfg
+
+
+def _equip(a, i):
+    """routes, hooks and error handlers of one application, through every registration form of the API"""
+    a._verif_handler = _make_handler()
+    a.route('/r/<x%d>' % i, method='ANY', callback=a._verif_handler)
+    a.route('/g/<y%d>' % i, method='GET', callback=a._verif_handler)
+    for code in ERROR_CODES:
+        a.error(code)(_error_handler_for(a))
+    a.error(418)(_teapot_loop)
+    a.error(404, '/h')(_partial_404)                 # a 404 handler for everything below /h
+    a.add_hook('before_request', _before_request_hook(a))
+    a.on('before_request', _before_after(a, 'before_request'))
+    a.on('after_request')(_before_after(a, 'after_request'))      # decorator form
+    a.add_hook('after_request', _noop)
+    a.remove_hook('after_request', _noop)
+    a.on_route('/r', _route_hook)
+    a.on_route('/tmp')(_noop)                        # decorator form, removed again
+    a.remove_route_hook('/tmp')
+    type(a)._hooks                                   # class access of the cached property
+
+
+def _noop(*a):
+    pass
+
+
+def make_apps(napps, use_default, cfg_names=None):
     """napps applications with a scripted handler on /r/<x{i}>; number 0 is the module-level default app if asked;
-    max_body: max_body_size of the applications built here (the default app keeps its configuration)"""
+    cfg_names: configuration of the applications built here (the default app keeps its own)"""
     import ombott
+    if isinstance(cfg_names, int):
+        cfg_names = ['max30']            # (older cases: max_body=30)
     apps = []
     for i in range(napps):
         if i == 0 and use_default:
             a = ombott.default_app()
             if not _DEFAULT_READY[0]:
-                a._verif_handler = _make_handler()
-                a.route('/r/<x0>', method='ANY', callback=a._verif_handler)
-                for code in ERROR_CODES:
-                    a.error(code)(_error_handler_for(a))
-                a.add_hook('before_request', _before_request_hook(a))
+                _equip(a, 0)
                 _DEFAULT_READY[0] = True
         else:
-            a = ombott.Ombott(dict(max_body_size=max_body)) if max_body is not None else ombott.Ombott()
-            a._verif_handler = _make_handler()
-            a.route('/r/<x%d>' % i, method='ANY', callback=a._verif_handler)
-            for code in ERROR_CODES:
-                a.error(code)(_error_handler_for(a))
-            a.add_hook('before_request', _before_request_hook(a))
+            a = ombott.Ombott(build_config(cfg_names)) if cfg_names else ombott.Ombott()
+            _equip(a, i)
         apps.append(a)
     return apps
 
 
 def arr_codes():
     # the handler proper; the recording helpers (_see, _view, _want) and do_call are harness, not handler
-    return [f.__code__ for f in (_handler, _interp, _gen_body, _error_handler_for(None), _before_request_hook(None))]      # _handler: one code object for all applications
+    return [f.__code__ for f in (_handler, _interp, _gen_body, _ret, _error_handler_for(None), _before_request_hook(None))]      # _handler: one code object for all applications
 
 
 def repo_trace_dir():
@@ -994,6 +1379,13 @@ def _fingerprint(apps):
 
 
 
+def _case_cfg(case):
+    names = list(case.get('cfg') or [])
+    if case.get('max_body') is not None and 'max30' not in names:
+        names.append('max30')
+    return sorted(names) or None
+
+
 def _solo_once(napps, use_default, max_body, call):
     apps = make_apps(napps, use_default, max_body)
     _warm(apps)
@@ -1020,10 +1412,14 @@ def baseline_server_main():
                 os.close(r)
                 req = json.loads(line)
                 try:
+                    cov_begin()
                     if req['op'] == 'solo':
-                        out = json.dumps(list(_solo_once(*req['args'])))
+                        out = json.dumps(list(_solo_once(*req['args'])) + [cov_take() if COV else None])
                     else:
-                        out = json.dumps(_main_run(req['case'], req['steps']))
+                        res = _main_run(req['case'], req['steps'])
+                        if COV:
+                            res['cov'] = cov_take()
+                        out = json.dumps(res)
                 except BaseException as e:  # noqa
                     out = json.dumps(dict(baseline_error=type(e).__name__, msg=str(e)[:300]))
                 with os.fdopen(w, 'w') as f:
@@ -1071,11 +1467,11 @@ class _Baseline:
 
 def _main_run(case, solo_steps_):
     """the arrangement itself (all threads, under the scheduler) in THIS process"""
-    napps, use_default, max_body = case['napps'], case.get('default', False), case.get('max_body')
+    napps, use_default, max_body = case['napps'], case.get('default', False), _case_cfg(case)
     n = len(case['calls'])
     if case.get('reuse'):
         # (batches of schedules over one scenario) the applications are built once
-        rk = (napps, use_default, max_body)
+        rk = (napps, use_default, tuple(max_body or ()))
         if rk not in _APPS_CACHE:
             _APPS_CACHE[rk] = make_apps(napps, use_default, max_body)
             _warm(_APPS_CACHE[rk])
@@ -1126,7 +1522,7 @@ def run_arrangement(case):
     baseline), and the arrangement itself — so nothing that is process-wide in ombott carries over from one case
     to the next, and a failing case fails again when it is replayed on its own.  (Batches of schedules over one
     scenario, `reuse`, run in the calling process.)"""
-    napps, use_default, max_body = case['napps'], case.get('default', False), case.get('max_body')
+    napps, use_default, max_body = case['napps'], case.get('default', False), _case_cfg(case)
     solo = []
     solo_steps_ = []
     for i, call in enumerate(case['calls']):
@@ -1136,7 +1532,8 @@ def run_arrangement(case):
             solo.append(json.loads(lg))
             solo_steps_.append(st)
             continue
-        log, st = _Baseline.ask(dict(op='solo', args=[napps, use_default, max_body, call]))
+        log, st, cv = _Baseline.ask(dict(op='solo', args=[napps, use_default, max_body, call]))
+        cov_merge(cv)
         solo.append(log)
         solo_steps_.append(st)
         if len(_SOLO_CACHE) < 8000:
@@ -1145,12 +1542,72 @@ def run_arrangement(case):
         out = _main_run(case, solo_steps_)
     else:
         out = _Baseline.ask(dict(op='main', case=case, steps=solo_steps_))
+        cov_merge(out.pop('cov', None))
         cmds = out.pop('trace_cmds', None)
         if cmds is not None and len(_TRACES) < 20000:
             _TRACES[json.dumps(case, sort_keys=True)] = cmds
     out['solo'] = solo
     out['steps'] = solo_steps_
     return out
+
+
+# -- generator pieces shared by C08 and C10 (all randomness from rng)
+
+RET_KINDS = ['file', 'gen_empty', 'none', 'gen_blank_first', 'gen_bytes', 'gen_int', 'gen_raises_resp', 'resp_obj',
+             'resp_raise', 'gen_raises_exc', 'bad_charset']
+
+
+def gen_api_actions(rng, tok, has_form=False, readonly=False):
+    """one small group of actions on the mapping interfaces of app.response.headers / app.request"""
+    r = rng.random()
+    name = rng.choice(['X-A', 'X-B', 'X-C'])
+    if r < 0.14:
+        return [['hdr_append', name, tok + 'a%d' % rng.randrange(3)]] * rng.choice([1, 2]) + [['see']]
+    if r < 0.22:
+        return [['hdr', name, tok + 'h'], ['hdr_del', name], ['see']]
+    if r < 0.30:
+        return [['hdr_clear'] if rng.random() < 0.4 else ['hdr_clear', [name, 'X-Never']], ['see']]
+    if r < 0.38:
+        return [['hdr_update', [[name, tok + 'u'], ['X-U', tok + 'u2']]], ['see']]
+    if r < 0.46:
+        return [['hdr_setdefault', name, tok + 'd'], ['see']]
+    if r < 0.54:
+        return [['hdr_append', name, tok + 'l1'], ['hdr_append', name, tok + 'l2'], ['hdr_copy'], ['see']]
+    if r < 0.70:
+        key = rng.choice(['QUERY_STRING', 'HTTP_COOKIE', 'HTTP_X_T'] + ([] if has_form else ['CONTENT_TYPE']))
+        val = {'QUERY_STRING': 'n=%sn' % tok, 'HTTP_COOKIE': 'c2=%sc2' % tok, 'HTTP_X_T': tok + 'xt',
+               'CONTENT_TYPE': 'text/x-' + tok.lower()}[key]
+        return [['see'], ['req_set', key, val], ['see']]
+    if r < 0.78:
+        return [['req_del'], ['see']]
+    if r < 0.88:
+        return [['ext'], ['see']]
+    return [['listen'] + (['off'] if rng.random() < 0.5 else []), ['see']]
+
+
+def gen_terminal(rng, tok):
+    r = rng.random()
+    if r < 0.85:
+        return ['ret', rng.choice(RET_KINDS)]
+    if r < 0.88:
+        return ['ret', 'loop418']
+    return ['bad_status', rng.choice(['nospace', 1000, 99])]
+
+
+def gen_call_kind(rng, cfg_names, app_is_default):
+    """keyword arguments for a call that does not reach (or only partly uses) the scripted handler"""
+    r = rng.random()
+    if r < 0.25:
+        return dict(route='g405', method='POST')
+    if r < 0.45:
+        return dict(route='nope404')
+    if r < 0.60:
+        return dict(route='h404hook')
+    if r < 0.75:
+        return dict(route='badpath')
+    if r < 0.90 or 'domain' not in (cfg_names or ()) or app_is_default:
+        return dict(method='HEAD')
+    return dict(domain=True)
 
 
 def _tokens(calls, acc):
@@ -1198,13 +1655,21 @@ def arrangement_failure(case, obs):
                 for other in toks:
                     if other != tok and not tok.startswith(other) and not other.startswith(tok) and other in text:
                         return 'thread %d: response of call %s contains text of call %s' % (ti, tok, other)
+                if rec['w_final'] == 'escaped':
+                    if rec['status'] is not None or not rec['body'].startswith('ESCAPED:'):
+                        return 'thread %d: call %s: catchall is off, the exception must leave the application' % (ti, tok)
+                    continue
                 clen = [h[1] for h in rec['hdrs'] if h[0] == 'Content-Length']
-                if clen and clen != [str(len(rec['body'].encode('latin1')))]:
+                if clen and not rec.get('nobody') and clen != [str(len(rec['body'].encode('latin1')))]:
                     return ('thread %d: call %s sent Content-Length %s with a body of %d bytes'
                             % (ti, tok, clen, len(rec['body'].encode('latin1'))))
                 code = int((rec['status'] or '0').split()[0])
                 if code != rec['w_status']:
                     return 'thread %d: call %s answered %r, expected status %d' % (ti, tok, rec['status'], rec['w_status'])
+                if rec.get('w_allow') and [h[1] for h in rec['hdrs'] if h[0] == 'Allow'] != [rec['w_allow']]:
+                    return 'thread %d: call %s: 405 without Allow: %s' % (ti, tok, rec['w_allow'])
+                if rec.get('nobody') and rec['body']:
+                    return 'thread %d: call %s sent a body with a HEAD / 1xx / 204 / 304 answer' % (ti, tok)
                 if rec.get('w_line') is not None and rec['status'] != rec['w_line']:
                     return ('thread %d: call %s answered with status line %r, its handler set %r'
                             % (ti, tok, rec['status'], rec['w_line']))
@@ -1217,7 +1682,10 @@ def arrangement_failure(case, obs):
                     ck = sorted(h[1].split(';')[0].split('=', 1) for h in rec['hdrs'] if h[0] == 'Set-Cookie')
                     if ck != rec['w_cookies']:
                         return 'thread %d: call %s cookies %s, handler set %s' % (ti, tok, ck, rec['w_cookies'])
-                else:
+                elif rec['w_final'] == 'critical':
+                    if tok not in rec['body'] and not rec.get('nobody'):
+                        return 'thread %d: last-resort page of call %s does not mention its own request' % (ti, tok)
+                elif not rec.get('nobody'):
                     ctype = ' '.join(h[1] for h in rec['hdrs'] if h[0] == 'Content-Type')
                     if rec.get('accept_json') != ctype.startswith('application/json'):
                         return ('thread %d: error page of call %s has Content-Type %r, the request %s JSON'
